@@ -1,6 +1,7 @@
 import DaskModel.Model.Masked
 import DaskModel.Lemmas.ArrayReduce
 import DaskModel.Lemmas.BlockScan
+import DaskModel.Lemmas.GridReduce
 /-!
 # C33 — masked array operations equal numpy.ma
 
@@ -55,12 +56,13 @@ theorem mfold_spec (op : Int → Int → Int) (assoc : ∀ a b c, op (op a b) c 
     | some a =>
       have : mfold op (some a :: xs) = liftOp op (some a) (mfold op xs) := rfl
       rw [this, ih]
-      simp only [List.filterMap_cons, id]
-      cases h : xs.filterMap id with
-      | nil => simp [liftOp]
+      have hfm : (some a :: xs).filterMap id = a :: xs.filterMap id := rfl
+      rw [hfm]
+      cases xs.filterMap id with
+      | nil => rfl
       | cons y ys =>
-        simp only [liftOp, List.foldl_cons]
-        rw [foldl_assoc op assoc]
+        show some (op a (ys.foldl op y)) = some ((y :: ys).foldl op a)
+        rw [List.foldl_cons, foldl_assoc op assoc]
 
 theorem mapM_some' {α β : Type} (c : α → β) (xs : List α) : xs.mapM (fun x => some (c x)) = some (xs.map c) := by
   induction xs with
@@ -142,6 +144,24 @@ theorem ma_mean_eq (k depth : Nat) (hk : k ≠ 0) (blocks : List (List M)) (hne 
   rw [show (blocks.map fun b => mfold (· + ·) b) = blocks.map (mfold (· + ·)) from rfl,
     mfold_flatten _ Int.add_assoc, show (blocks.map fun b => countUnmasked b) = blocks.map countUnmasked from rfl,
     countUnmasked_flatten]
+
+/-- **ma_reduce_nd_eq**: masked sum/prod/min/max over *several axes*: for every grid of blocks, every per-axis
+    `split_every` and every valid depth the n-d tree returns numpy.ma's reduction of all the data
+    (commutative `op`). -/
+theorem ma_reduce_nd_eq (op : Int → Int → Int) (assoc : ∀ a b c, op (op a b) c = op a (op b c))
+    (comm : ∀ a b, op a b = op b a) (d : Nat) (ks nb : List Nat) (blocks : List (List M))
+    (h : AxesOk (d + 1) ks nb) (hl : blocks.length = (cartesian (nb.map List.range)).length) :
+    (redMa op).run nb (ks.map some) false (d + 1) blocks = some [([], mfold op blocks.flatten)] := by
+  have hM : IsCommMonoid (liftOp op) none :=
+    ⟨liftOp_monoid op assoc, by intro a b; cases a <;> cases b <;> simp [liftOp, comm]⟩
+  unfold Red.run
+  show ((blocks.mapM fun b => some (mfold op b)).bind _) = _
+  rw [mapM_some']
+  simp only [Option.bind_some]
+  have := gridReduce_eq_fold hM d ks nb (blocks.map (mfold op)) h (by simpa using hl)
+  rw [show (redMa op).combine = (fun xs : List M => xs.foldr (liftOp op) none) from rfl,
+    show (redMa op).aggregate = (fun xs : List M => xs.foldr (liftOp op) none) from rfl, this]
+  exact congrArg (fun v => some [([], v)]) (mfold_flatten op assoc blocks)
 
 /-! ## elementwise, filled, getmaskarray, masked_where -/
 
